@@ -1,6 +1,7 @@
 package util
 
 import (
+	"github.com/mongodb/ftdc/verifhook"
 	"strings"
 	"sync"
 
@@ -76,6 +77,7 @@ func (c *basicCatcher) Add(err error) {
 	if err == nil {
 		return
 	}
+	verifhook.Point("catcher.Add")
 
 	c.mutex.Lock()
 	defer c.mutex.Unlock()
